@@ -104,6 +104,8 @@ def conclude(job, spec, a, t0):
     if os.path.exists(base_path) and not a.only and job.seed == 0:
         base = json.load(open(base_path))["obligations"]
         missing = sorted(set(base) - set(names))
+        if getattr(job, "aux_dropped", None):
+            missing = [m for m in missing if "/aux/" not in m]
         extra = sorted(set(names) - set(base))
         # obligations lost because their program was dropped are already undecided
         if missing or extra:
@@ -314,6 +316,7 @@ def write_evidence(job, spec, a, t0, violations=(), undecided=(), known_hit=(), 
         "violations": [n for n, _ in violations],
         "assumption_scan": scanned,
         "baseline": base_note or "matches committed baseline",
+        "aux_dropped": getattr(job, "aux_dropped", None),
         "samples": samples or [{"note": fatal or "no obligations"}],
         "explanation": spec.get("explanation", ""),
         "build_log": job.fam.log,
